@@ -158,6 +158,35 @@ fn run_entry<C: Context<NumericTypes = DefaultNumericTypes> + ContextWithMutable
         "eval_boolean_with_context_mut" => show(out, tag, eval_boolean_with_context_mut(e, ctx), |b| format!("B:{}", *b as u8)),
         "eval_tuple_with_context_mut" => show(out, tag, eval_tuple_with_context_mut(e, ctx), |t| enc(&Value::Tuple(t.clone()))),
         "eval_empty_with_context_mut" => show(out, tag, eval_empty_with_context_mut(e, ctx), |_| "E".to_string()),
+        "optree_mut" | "optree_ro" => {
+            // hand-built node (public API: operator_mut / children_mut): "<OperatorName> <k>", children are calls c0(0) .. c{k-1}(k-1)
+            let mut it = e.split(' ');
+            let opname = it.next().unwrap_or("");
+            let k: usize = it.next().and_then(|x| x.parse().ok()).unwrap_or(0);
+            let op: Operator = match opname {
+                "RootNode" => Operator::RootNode, "Add" => Operator::Add, "Sub" => Operator::Sub, "Neg" => Operator::Neg, "Mul" => Operator::Mul,
+                "Div" => Operator::Div, "Mod" => Operator::Mod, "Exp" => Operator::Exp, "Eq" => Operator::Eq, "Neq" => Operator::Neq, "Gt" => Operator::Gt,
+                "Lt" => Operator::Lt, "Geq" => Operator::Geq, "Leq" => Operator::Leq, "And" => Operator::And, "Or" => Operator::Or, "Not" => Operator::Not,
+                "Assign" => Operator::Assign, "AddAssign" => Operator::AddAssign, "SubAssign" => Operator::SubAssign, "MulAssign" => Operator::MulAssign,
+                "DivAssign" => Operator::DivAssign, "ModAssign" => Operator::ModAssign, "ExpAssign" => Operator::ExpAssign, "AndAssign" => Operator::AndAssign,
+                "OrAssign" => Operator::OrAssign, "Tuple" => Operator::Tuple, "Chain" => Operator::Chain,
+                "Const" => Operator::Const { value: Value::Int(7) },
+                "VariableIdentifierWrite" => Operator::VariableIdentifierWrite { identifier: "x".to_string() },
+                "VariableIdentifierRead" => Operator::VariableIdentifierRead { identifier: "x".to_string() },
+                _ => Operator::FunctionIdentifier { identifier: "x".to_string() },
+            };
+            let mut node = build_operator_tree::<DefaultNumericTypes>("0").unwrap();
+            *node.operator_mut() = op;
+            node.children_mut().clear();
+            for i in 0..k {
+                node.children_mut().push(build_operator_tree::<DefaultNumericTypes>(&format!("c{}({})", i, i)).unwrap());
+            }
+            if c.entry == "optree_mut" {
+                show(out, tag, node.eval_with_context_mut(ctx), enc)
+            } else {
+                show(out, tag, node.eval_with_context(&*ctx), enc)
+            }
+        },
         other => {
             // tree-level forms: "node:<method>"
             if let Some(m) = other.strip_prefix("node:") {
